@@ -236,6 +236,8 @@ class Screen(_raw_display_base.Screen):
 
         if self._old_signal_keys:
             self.tty_signal_keys(*self._old_signal_keys, fd)
+            # back to what _start() found: the next session takes its own snapshot
+            self._signal_keys_set = False
 
         super()._stop()
 
